@@ -163,6 +163,9 @@ func report(r *Runner, prop, tier, evidence, known string, noReplay bool, loadT,
 	w := r.w
 	t0 := time.Now()
 	inconclusive := []string{}
+	if r.timedOut {
+		inconclusive = append(inconclusive, "exploration budget exhausted before all paths were explored (reduce the bound)")
+	}
 	// ---- vacuity ----
 	for _, name := range r.order {
 		st := r.stats[name]
